@@ -71,9 +71,9 @@ class Ctx:
         # a branch condition that the linear part alone decides is not sent to the full solver (see branch())
         self.light = z3.Solver()
         self.light.set('timeout', 2000)
+        self.frames = []         # literal of every frame on the stack (for the mirror)
+        self.light_depth = 0
         self.slow_seen = _PROC['slow_seen']      # sticky per worker process: the next task of the same check starts warned
-        if _PROC['fast_ms']:
-            self.fast_ms = _PROC['fast_ms']
         self.n_light = 0
         self.stack = []          # decisions whose frames are on the solver
         self.nq = 0
@@ -86,6 +86,24 @@ class Ctx:
         self.max_paths = None
         self.step_budget = None
 
+    def _set_timeout(self, ms):
+        # solver.set() per query is not free (C12: 4x wall time): only when the value changes
+        if getattr(self, '_cur_timeout', None) != ms:
+            self.solver.set('timeout', ms)
+            self._cur_timeout = ms
+
+    def _sync_light(self):
+        """bring the linear mirror to the current stack (built on demand: pushing every literal twice costs too much)"""
+        while self.light_depth > len(self.stack):
+            self.light.pop()
+            self.light_depth -= 1
+        while self.light_depth < len(self.stack):
+            lit = self.frames[self.light_depth]
+            self.light.push()
+            if lit is not None and _is_linear(lit):
+                self.light.add(lit)
+            self.light_depth += 1
+
     # -- raw queries -------------------------------------------------------
     def check(self, *extra, timeout_ms=None):
         self.nq += 1
@@ -96,8 +114,7 @@ class Ctx:
         tmo = timeout_ms or self.timeout_ms
         fast = getattr(self, 'fast_ms', 15000)
         inc_tmo = min(tmo, fast) if fast else tmo
-        if timeout_ms or fast:
-            self.solver.set('timeout', inc_tmo)
+        self._set_timeout(inc_tmo)
         if timeout_ms:
             self.solver.set('rlimit', timeout_ms * 2000)     # deterministic resource bound: nlsat may ignore the timeout
         # watchdog: some z3 tactics (nlsat big-number loops) ignore the soft timeout
@@ -111,8 +128,7 @@ class Ctx:
             r = 'unknown'
         finally:
             wd.cancel()
-            if timeout_ms or fast:
-                self.solver.set('timeout', self.timeout_ms)
+            if timeout_ms:
                 self.solver.set('rlimit', 0)
         if r == 'sat':
             model = self.solver.model()
@@ -133,13 +149,12 @@ class Ctx:
             finally:
                 wd.cancel()
             if r != 'unknown':
-                self.fast_ms = _PROC['fast_ms'] = 4000
                 self.n_fresh = getattr(self, 'n_fresh', 0) + 1
             if r == 'sat':
                 model = s2.model()
             if r == 'unknown' and inc_tmo < tmo:
                 # the shortened first attempt gets its full budget after all
-                self.solver.set('timeout', tmo)
+                self._set_timeout(tmo)
                 wd = threading.Timer(tmo / 1000.0 * 1.5 + 5, z3.main_ctx().interrupt)
                 wd.daemon = True
                 wd.start()
@@ -149,7 +164,6 @@ class Ctx:
                     r = 'unknown'
                 finally:
                     wd.cancel()
-                    self.solver.set('timeout', self.timeout_ms)
                 if r == 'sat':
                     model = self.solver.model()
         if r == 'sat':
@@ -183,8 +197,11 @@ class Ctx:
             common += 1
         while len(self.stack) > common:
             self.solver.pop()
-            self.light.pop()
             self.stack.pop()
+            self.frames.pop()
+        while self.light_depth > len(self.stack):
+            self.light.pop()
+            self.light_depth -= 1
         p = Path(prefix)
         self.cur = p
         return p
@@ -199,11 +216,9 @@ class Ctx:
         else:
             assert i == len(self.stack), (i, len(self.stack))
             self.solver.push()
-            self.light.push()
             if lit is not None:
                 self.solver.add(lit)
-                if _is_linear(lit):
-                    self.light.add(lit)
+            self.frames.append(lit)
             self.stack.append(d)
         if i >= len(p.dec):
             p.dec.append(d)
@@ -291,8 +306,9 @@ _LIN_CACHE = {}
 def _is_linear(e, depth=0):
     """no product / quotient / power of two non-constant terms anywhere in e (uninterpreted functions are allowed)"""
     k = e.get_id()
-    if k in _LIN_CACHE:
-        return _LIN_CACHE[k]
+    hit = _LIN_CACHE.get(k)
+    if hit is not None:
+        return hit[1]          # the entry keeps its term alive, so the id cannot have been re-used for another term
     r = True
     if z3.is_app(e):
         kind = e.decl().kind()
@@ -309,7 +325,7 @@ def _is_linear(e, depth=0):
         r = False
     if len(_LIN_CACHE) > 200000:
         _LIN_CACHE.clear()
-    _LIN_CACHE[k] = r
+    _LIN_CACHE[k] = (e, r)
     return r
 
 
@@ -338,8 +354,9 @@ def branch(c):
         assert d is True or d is False, ('branch expected bool slot', d, p.pos)
         C._slot(d, c if d else z3.Not(c))
         return d
-    if C.slow_seen and not p.notes.get('split') and _is_linear(c):
+    if (C.slow_seen or getattr(C, 'light_first', False)) and _is_linear(c):
         # the linear part of the path condition is a subset of it: what it refutes is refuted
+        C._sync_light()
         lt = str(C.light.check(c))
         lf = str(C.light.check(z3.Not(c)))
         if (lt == 'unsat') != (lf == 'unsat'):
